@@ -17,12 +17,12 @@ CHECKS = {
  "C02": ("Slice and map options with SYMBOLIC, unbounded (min,max), attached or detached first value and 0-2 (thorough 3) following tokens drawn symbolically from "
          "{well-formed value, malformed value, --flag, -, --, command name}: the solver shows that exactly the tokens the statement says are consumed, "
          "values are stored in order (map: text before the first '=' / everything after, last key wins), leftovers are interpreted normally, too few values fail; "
-         "definitions with min<1 or max<min are rejected at definition; int ranges a..a+d (d<=3) expand inclusively for all a, also when the option already holds values from an earlier occurrence or an earlier mandatory value.",
+         "definitions with min<1 or max<min are rejected at definition; int ranges a..a+d (d<=3) expand inclusively for all a, also when the option already holds values from an earlier occurrence or an earlier mandatory value; int list elements given as ANY text are stored as exactly what strconv.Atoi yields or rejected.",
          "one occurrence of the option, <=2/3 following tokens, int values are canonical numerals (numeral syntax is C01's subject), malformed values start with a letter outside every numeral syntax, range span <=3 with |a|<=2^62; "),
  "C03": ("Two unconstrained raw tokens (any bytes, any length) over a program with a flag, a string option and a command, in all 18 combinations of "
          "single-dash mode x unknown mode x require-order: on every path where Parse succeeds the solver shows remaining is an order-preserving sub-list of argv, "
          "plain positionals and unknown long options (Pass/Warn) are retained wherever they stand relative to the command token, and the tail behind the first `--` is verbatim; "
-         "a single-dash first token holding an unknown option (any of the three modes) is retained; constructed shapes cover positionals/unknowns before and after a command, bundles of unknown letters, bundles whose first letter takes the next token as value and whose second is unknown (with and without require-order), and different unknown modes at root and command.",
+         "a single-dash first token holding an unknown option (any of the three modes) is retained; constructed shapes cover positionals/unknowns before and after a command, bundles of unknown letters, bundles whose first letter takes the next token as value and whose second is unknown (with and without require-order), different unknown modes at root and command, and the help option next to an unknown option.",
          "argv of 2 raw tokens, bundles of <=2 letters, letters of 1-2 UTF-8 bytes (wider / invalid sequences are cut and counted); retention rules are necessary conditions only (DESIGN.md C03); "),
  "C04": ("For 18 contexts before `--` (nothing, positional, flag, satisfied option, bare optional-value option of three kinds, slice/map/int-list option with min reached and max not - detached, attached, with one extra value already taken -, an attached value of ANY shape in long and single-dash spelling, command) "
          "and two UNCONSTRAINED tail tokens, in every mode combination, the solver shows Parse succeeds, remaining ends with exactly the tail, no option/Called state "
@@ -34,7 +34,7 @@ CHECKS = {
          "three declared names, one option token (+ its value), default unknown mode; "),
  "C06": ("Relational: 1-2 occurrences of an option of 6 kinds, each spelled by a symbolically chosen alias (long, one ASCII letter, one multibyte letter) vs. the primary name on two fresh definitions "
          "must agree on every value, on remaining and on error-ness; Called is true under every name, CalledAs is the spelling last used, *Var target and Value(x) agree; "
-         "12 sibling options of all kinds with SYMBOLIC defaults keep them and report Called false; SetCalled is honoured; one-letter multibyte aliases sharing a first byte address their own option only and ANY undeclared two-byte letter (symbolic) touches nothing.",
+         "12 sibling options of all kinds with SYMBOLIC defaults keep them and report Called false; SetCalled is honoured; one-letter multibyte aliases sharing a first byte address their own option only and ANY undeclared two-byte letter (symbolic) touches nothing; an option declared between two NewCommand calls is Called / CalledAs / valued exactly behind either command.",
          "<=2 occurrences, 3 aliases, values are arbitrary strings (ints: canonical numerals); "),
  "C07": ("Relational, no oracle: in Normal mode -NAME[=v] vs --NAME[=v] for EVERY name text; in Bundling mode -xyz[=v] vs -x -y -z[=v] for declared letters; in SingleDash mode -xREST vs --x=REST for every REST "
          "(x one of 5 letters incl. a 2-byte one) and -x vs --x; any token starting with `--` under two different modes: all values, Called, CalledAs, remaining and error-ness must be equal.",
